@@ -238,6 +238,12 @@ func c14RealTimeRun(c *core.Collector, x *Ctx, short bool) {
 				want[first] = true
 			}
 			time.Sleep(5300 * time.Millisecond)
+			if m == 3 {
+				// a slow write callback holds the writer for 150 ms per frame: the reader has to WAIT for room in the 3-slot
+				// re-request channel, possibly for hundreds of milliseconds
+				svc.SlowWrite.Store(t.Phone, 150*time.Millisecond)
+				defer svc.SlowWrite.Delete(t.Phone)
+			}
 			if m >= 2 { // the writer is busy answering a burst when the re-requests are produced
 				var burst []byte
 				for k := 0; k < 8; k++ {
